@@ -548,7 +548,7 @@ Lemma clear_input_ok T tl ps ins name ins' :
 Proof.
   intros Hs Hsrc H. unfold clear_input in H.
   destruct (lsplit name) as [[f rest]|].
-  - destruct (atoi rest) as [idx|]; [|discriminate]. cbn [bind] in H.
+  - destruct (atoi_idx rest) as [idx|]; [|discriminate]. cbn [bind] in H.
     destruct (find_port ps f) as [p|]; [|discriminate]. cbn [bind] in H.
     destruct (port_val ps ins f) as [l|]; [|discriminate]. cbn [bind] in H.
     destruct (p_array p && (idx <? N.of_nat (length l))); [|discriminate]. injection H as <-.
